@@ -273,7 +273,17 @@ pub fn hostile_case(rng: &mut Rng, tier: crate::scn::Tier, idx: u64, prop: &str,
             };
             if mode == 1 {
                 let e = refcodec::ref_encode(&c.packets[0], sw.fam, &c.style);
-                let n = rng.urange(1, 4);
+                if rng.chance(1, 4) {
+                    // one aimed malformation (F12) plus byte-level corruption on top: two faults
+                    let mals = crate::malform::enumerate(&c.packets[0], sw.fam);
+                    if !mals.is_empty() {
+                        let m = &mals[rng.usize_below(mals.len())];
+                        c.stream = Bs(m.frame.clone());
+                        c.packets.clear();
+                        c.style = Style::default();
+                    }
+                }
+                let n = rng.urange(if c.packets.is_empty() { 0 } else { 1 }, 4);
                 c.mutations = gen_mutations(rng, e.bytes.len(), &span_bounds(&e.spans), n);
             }
         }
@@ -333,6 +343,7 @@ pub fn hostile_case(rng: &mut Rng, tier: crate::scn::Tier, idx: u64, prop: &str,
     c.cancel = gen_cancel(rng, &script, cp);
     c.read_script = script;
     c.read_tail = tail;
+    c.reader_style = rng.below(3) as u8;
     c
 }
 
@@ -352,4 +363,24 @@ pub fn hostile_stream(c: &Case) -> Vec<u8> {
         s.truncate(k);
     }
     s
+}
+
+
+/// Bounded-exhaustive family of tiny frames, enumerated by index: every control byte with a
+/// valid type/flag nibble (plus a few invalid ones) x remaining length 0..=5 x body bytes over a
+/// small alphabet {00, 01, 02, 03, 10, 80, FF}. 7^5 bodies per (type, length) at most.
+pub fn small_frame(fam: Fam, k: u64) -> Vec<u8> {
+    const ALPHA: [u8; 7] = [0x00, 0x01, 0x02, 0x03, 0x10, 0x80, 0xFF];
+    let types = gen::all_types(fam);
+    let t = types[(k % types.len() as u64) as usize];
+    let mut k = k / types.len() as u64;
+    let flags = spec::fixed_flags(t, fam.is_v5()).unwrap_or((k % 16) as u8);
+    let rl = (k % 6) as usize;
+    k /= 6;
+    let mut f = vec![(t << 4) | flags, rl as u8];
+    for _ in 0..rl {
+        f.push(ALPHA[(k % 7) as usize]);
+        k /= 7;
+    }
+    f
 }
